@@ -1,12 +1,67 @@
+// govc: contract-based deductive verifier for the eino packages (see /verif/DESIGN.md).
 package main
 
 import (
+	"flag"
 	"fmt"
-	"golang.org/x/tools/go/packages"
+	"os"
+	"strings"
+
+	"govc/check"
+	"govc/vc"
 )
 
 func main() {
-	cfg := &packages.Config{Mode: packages.NeedName | packages.NeedSyntax | packages.NeedTypes | packages.NeedTypesInfo | packages.NeedFiles | packages.NeedImports | packages.NeedDeps, Dir: "/repo", BuildFlags: []string{"-tags=verif"}}
-	pkgs, err := packages.Load(cfg, "./compose")
-	fmt.Println(len(pkgs), err)
+	if len(os.Args) < 2 {
+		fmt.Fprintln(os.Stderr, "usage: govc <verify|check|selftest|replay|list> [flags]")
+		os.Exit(2)
+	}
+	cmd := os.Args[1]
+	if cmd == "solverd" {
+		vc.ServeSolvers(os.Stdin, os.Stdout)
+		return
+	}
+	vc.StartSolverHelper()
+	fs := flag.NewFlagSet(cmd, flag.ExitOnError)
+	root := fs.String("root", "/repo", "repository root to verify")
+	verif := fs.String("verif", "/verif", "verif directory (known findings, baseline, evidence, replays)")
+	prop := fs.String("prop", "", "property id")
+	tier := fs.String("tier", "quick", "quick | thorough")
+	fn := fs.String("func", "", "substring filter on function ids (verify)")
+	verbose := fs.Bool("v", false, "verbose")
+	keep := fs.String("keep", "", "directory to keep SMT queries in")
+	noEvidence := fs.Bool("no-evidence", false, "do not write the evidence file")
+	fs.Parse(os.Args[2:])
+	opts := check.Options{Root: *root, Verif: *verif, Prop: *prop, Tier: *tier, Filter: *fn, Verbose: *verbose, KeepDir: *keep, NoEvidence: *noEvidence}
+	if v := os.Getenv("VERIF_TIER"); v != "" && !flagSet(fs, "tier") {
+		opts.Tier = v
+	}
+	if v := os.Getenv("VERIF_SEED"); v != "" {
+		fmt.Sscanf(v, "%d", &opts.Seed)
+	}
+	var code int
+	switch cmd {
+	case "verify":
+		code = check.Verify(opts)
+	case "check":
+		code = check.Check(opts)
+	case "list":
+		code = check.List(opts)
+	case "rebaseline":
+		code = check.Rebaseline(opts)
+	default:
+		fmt.Fprintln(os.Stderr, "unknown command", cmd)
+		code = 2
+	}
+	os.Exit(code)
+}
+
+func flagSet(fs *flag.FlagSet, name string) bool {
+	found := false
+	fs.Visit(func(f *flag.Flag) {
+		if strings.EqualFold(f.Name, name) {
+			found = true
+		}
+	})
+	return found
 }
